@@ -79,10 +79,22 @@ def lake_build(targets: list[str], timeout=3000) -> tuple[bool, str]:
     return rc == 0, out
 
 
+_driver_copy: Path | None = None
+
+
 def ensure_driver() -> None:
-    ok, out = lake_build(["ptdriver"])
-    if not ok or not DRIVER.exists():
-        raise LeanError("ptdriver does not build:\n" + out[-4000:])
+    """build the driver and take a private copy of the binary (under the build lock): a concurrently running
+    check may relink .lake/build/bin/ptdriver at any moment"""
+    global _driver_copy
+    import shutil
+    import tempfile
+    with _FileLock():
+        rc, out = run(["lake", "build", "ptdriver"], cwd=LEAN_DIR, timeout=3000)
+        if rc != 0 or not DRIVER.exists():
+            raise LeanError("ptdriver does not build:\n" + out[-4000:])
+        dst = Path(tempfile.gettempdir()) / f"ptdriver.{os.getpid()}"
+        shutil.copy2(DRIVER, dst)
+        _driver_copy = dst
 
 
 def driver_query(lines: list[str], timeout=3000) -> list[str]:
@@ -90,7 +102,7 @@ def driver_query(lines: list[str], timeout=3000) -> list[str]:
     if not lines:
         return []
     ensure_driver_once()
-    p = subprocess.run([str(DRIVER)], input="\n".join(lines) + "\n", text=True,
+    p = subprocess.run([str(_driver_copy or DRIVER)], input="\n".join(lines) + "\n", text=True,
                        stdout=subprocess.PIPE, stderr=subprocess.PIPE, timeout=timeout)
     if p.returncode != 0:
         raise LeanError(f"ptdriver exited {p.returncode}: {p.stderr[-2000:]}")
